@@ -365,6 +365,8 @@ pub proof fn lemma_mono_ij(o: Seq<usize>, i: int, j: int)
         return seen
     scope = reach([n for n in order if types[n][2] == 'blockchain.rs'] + ['RelayMessage', 'SyncMessage'])
     anames = set(n for n in dyn if klass(n) in ('table', 'dynvec', 'option'))
+    fixvecs = [n for n in order if klass(n) == 'fixvec'] if not os.environ.get('ONLY') else []
+    anames |= set(fixvecs)
     aneed = set()
     for n in anames:
         kind, payload, _f = types[n]
@@ -372,6 +374,7 @@ pub proof fn lemma_mono_ij(o: Seq<usize>, i: int, j: int)
             aneed.update(ft for _fn, ft in payload)
         else:
             aneed.add(payload)
+    aneed.discard('byte')
     nfun = 0
     for n in [x for x in order if x in (anames | aneed)]:
         f = types[n][2]
@@ -436,6 +439,31 @@ ensures = ["C16.access.%s.%s.is_the_sub_slice_between_offsets_%d_and_%d_and_was_
   [[item.proof]]
   at = "start"
   text = "reveal(ok_%s); lemma_offs_bounds(self.0@, %d);"''' % (n, fn_, i, i + 1, i, i + 1, wf(ft, 'r.0@'), n, i))
+                nfun += 1
+        elif k == 'fixvec':
+            isz = fixed_size(payload)
+            c = 'VERIF_%s_ITEM_SIZE' % n.upper()
+            aitems.append('''
+[[item]]
+file = "util/gen-types/src/generated/%s"
+path = "impl %sReader<'r>%s::const ITEM_SIZE"
+hoist_as = "%s"''' % (f, n, idx, c))
+            IS = '''
+  [[item.abstract]]
+  expr = "Self::ITEM_SIZE"
+  all = true
+  as = "%s"''' % c
+            aitems.append(base % 'total_size' + '\nensures = ["C16.access.%s.total_size: r == self.0@.len()"]' % n + IS + REVEAL)
+            aitems.append(base % 'item_count' + '\nensures = ["C16.access.%s.item_count: r == num_at(self.0@, 0)"]' % n + REVEAL)
+            aitems.append(base % 'len' + '\nensures = ["C16.access.%s.len: r == num_at(self.0@, 0)"]' % n + REVEAL)
+            aitems.append(base % 'is_empty' + '\nensures = ["C16.access.%s.is_empty: r == (num_at(self.0@, 0) == 0)"]' % n + REVEAL)
+            gotf = 'r.0@ == self.0@.subrange(4 + %d * idx, 4 + %d * (idx + 1)) && r.0@.len() == %d' % (isz, isz, isz)
+            aitems.append((base % 'get_unchecked').replace('"]', '", "C16.access.%s.get_unchecked.pre.index_in_range: idx < num_at(self.0@, 0)"]' % n)
+                          + '\nensures = ["C16.access.%s.get_unchecked.is_item_idx_of_the_vector: %s"]' % (n, gotf) + IS + REVEAL)
+            aitems.append(base % 'get' + '\nensures = ["C16.access.%s.get.some_exactly_for_an_index_in_range: (r is Some <==> idx < num_at(self.0@, 0)) && (r matches Some(v) ==> %s)"]' % (n, gotf.replace('r.0@', 'v.0@')) + REVEAL)
+            nfun += 6
+            if n == 'Bytes':
+                aitems.append(base % 'raw_data' + '\nensures = ["C16.access.Bytes.raw_data.is_everything_after_the_item_count: r@ == self.0@.subrange(4, self.0@.len() as int)"]' + REVEAL)
                 nfun += 1
         elif k == 'dynvec':
             aitems.append(base % 'total_size' + '\nensures = ["C16.access.%s.total_size: r == self.0@.len()"]' % n + REVEAL)
